@@ -34,10 +34,8 @@ def hasInfix (pat : List Char) : List Char → Bool
 
 def commentOpen : List Char := ['<', '!', '-', '-']
 
-def closesAt : List Char → Bool
-  | '-' :: '-' :: '>' :: _ => true
-  | '-' :: '-' :: '!' :: '>' :: _ => true
-  | _ => false
+def closesAt (l : List Char) : Bool :=
+  (['-', '-', '>'] : List Char).isPrefixOf l || (['-', '-', '!', '>'] : List Char).isPrefixOf l
 
 def hasClose : List Char → Bool
   | [] => false
